@@ -18,7 +18,7 @@ from harness import impl
 
 PID = "C16"
 HEADER = ("From Coq Require Import QArith ZArith List. Import ListNotations.\n"
-          "From TT Require Import Num NumQ M_leapfrog M_lf_oracle.\n")
+          "From TT Require Import Num M_leapfrog M_lf_oracle.\n")
 
 
 # ----------------------------------------------------------------------------- generators
@@ -99,7 +99,8 @@ def gen_case(rng, i, tier):
             q0 = [rng.uniform(-3, 3) for _ in range(n)]
         elif kind == "normal":
             loc = [rng.uniform(-2, 2) for _ in range(n)]
-            scale = [logu(rng, 0.2, 5.0) for _ in range(n)]
+            scale = ([rng.choice([0.25, 0.5, 1.0, 2.0, 4.0]) for _ in range(n)] if rng.random() < 0.5
+                     else [logu(rng, 0.2, 5.0) for _ in range(n)])
             case.update(target=dict(loc=loc, scale=scale, how=rng.choice(["one", "per-parameter"])))
             q0 = [rng.uniform(-3, 3) for _ in range(n)]
         else:  # gamma on exp(z), one density per parameter block
@@ -417,31 +418,49 @@ def kinetic_exact(minv, p):
 
 # ----------------------------------------------------------------------------- Coq expressions
 
+def clist(items, f=str):
+    """(a :: b :: nil) — the [a; b] notation clashes with BigZ's [x] in the case files' scope."""
+    return "(" + " :: ".join([f(i) for i in items] + ["nil"]) + ")"
+
+
 def sqv(v):
-    return C.coq_list(v, lambda x: f"sq {C.qlit(x)}")
+    return clist(v, lambda x: f"sd {C.qlit(x)}")
+
+
+def is_dyadic(x):
+    d = F(x).denominator
+    return d & (d - 1) == 0
+
+
+def exact_gauss(case):
+    """Gaussian target whose precision matrix is a matrix of doubles: the gradient is part of the model."""
+    if case["kind"] not in ("mvn", "normal"):
+        return False
+    A, mu = gauss_target(case)
+    return all(is_dyadic(v) for row in A for v in row)
 
 
 def coq_mass(minv):
     if minv and isinstance(minv[0], list):
-        return "(Dense " + C.coq_list(minv, sqv) + ")"
+        return "(Dense " + clist(minv, sqv) + ")"
     return "(Diag " + sqv(minv) + ")"
 
 
 def coq_case(case, out):
-    eps, L = f"(sq {C.qlit(out['eps'])})", C.natlit(out["L"])
+    eps, L = f"(sd {C.qlit(out['eps'])})", C.natlit(out["L"])
     M = coq_mass(out["minv"])
     q0, p0 = sqv(case["q0"]), sqv(out["p0"])
-    if case["kind"] in ("mvn", "normal"):
+    if exact_gauss(case):
         A, mu = gauss_target(case)
-        g = f"(gauss_grad NumQ {C.coq_list(A, sqv)} {sqv(mu)})"
+        g = f"(gauss_grad NumDy {clist(A, sqv)} {sqv(mu)})"
     else:
-        tab = C.coq_list(out["table"], lambda kv: f"({sqv(kv[0])}, {sqv(kv[1])})")
-        g = f"(table_grad {tab})"
+        tab = clist(out["table"], lambda kv: f"({sqv(kv[0])}, {sqv(kv[1])})")
+        g = f"(table_grad_d {tab})"
     return (f"let g := {g} in let M := {M} in let q0 := {q0} in let p0 := {p0} in "
-            f"let st := hmc_step NumQ {eps} {L} M g q0 p0 in "
-            f"let lf := leapfrog NumQ {eps} M g {L} (q0, p0) in "
-            f"concat (map show_q (fst st ++ [snd st] ++ snd lf ++ "
-            f"concat (leapfrog_trace NumQ {eps} M g {L} (q0, p0))))")
+            f"let st := hmc_step NumDy {eps} {L} M g q0 p0 in "
+            f"let lf := leapfrog NumDy {eps} M g {L} (q0, p0) in "
+            f"concat (map show_d (fst st ++ (snd st :: nil) ++ snd lf ++ "
+            f"concat (leapfrog_trace NumDy {eps} M g {L} (q0, p0))))")
 
 
 # ----------------------------------------------------------------------------- comparisons
@@ -747,6 +766,15 @@ def work(args):
             except Exception as e:  # noqa
                 add("oracle-gradient", f"fresh model: {type(e).__name__}: {str(e)[:200]}", dict(case=case))
             if case["kind"] in ("mvn", "normal"):
+                # the gradient the integrator used is the linear map A (q - mu) of the specified Gaussian
+                A, mu = gauss_target(case)
+                for r, (pos, dU) in enumerate(out["table"]):
+                    x = [F(a) - m for a, m in zip(pos, mu)]
+                    bad = vec_close(dU, [sum(a * v for a, v in zip(row, x)) for row in A], 1e-9)
+                    if bad:
+                        add("gauss-gradient", f"gradient used at step {r} is not A (q - mu): {bad}",
+                            dict(case=case, step=r, position=pos, used=dU))
+                        break
                 text = check_shadow(case, out)
                 stat("shadow-energy:" + ("bad" if text else "ok"))
                 if text:
@@ -859,7 +887,8 @@ def run(tier, seed, replay=None):
     for ci, flatv in zip(index, res):
         c, o = cases[ci], outs[ci]
         nn, Ls = c["n"], o["L"]
-        dist[f"{c['kind']}/{c['mass_kind']}"] = dist.get(f"{c['kind']}/{c['mass_kind']}", 0) + 1
+        dk = f"{c['kind']}/{c['mass_kind']}/" + ("exact-gradient" if exact_gauss(c) else "oracle-gradient")
+        dist[dk] = dist.get(dk, 0) + 1
         rep.case(dict(c=c), nontrivial=True,
                  sample=dict(kind=c["kind"], n=nn, sizes=c["sizes"], eps=c["eps"], L=c["L"], mass_kind=c["mass_kind"],
                              q0=c["q0"], p0=o["p0"], impl_q1=o["q1"], impl_p1=o["p1"], impl_return=o["ret"]))
@@ -867,7 +896,7 @@ def run(tier, seed, replay=None):
         if any(m[0] != 1 for m in mod):
             undefined += 1
             continue
-        vals = [Fraction(m[1], m[2]) for m in mod]
+        vals = [Fraction(m[1]) * Fraction(2) ** m[2] for m in mod]
         want = nn + 1 + nn + (Ls + 1) * nn
         bad = None
         if len(vals) != want or len(o["trace"]) != Ls + 1:
